@@ -731,6 +731,16 @@ func (r *proxyStreamReceiver) recvReplicationMessages(
 			// record last source exclusive high watermark (original id space)
 			r.ackMu.Lock()
 			r.lastExclusiveHighOriginal = attr.Messages.ExclusiveHighWatermark
+			// A target that is about to receive its first tasks has acknowledged nothing yet: seed its
+			// entry with the first task id so the aggregated minimum cannot pass tasks it still holds.
+			if r.ackByTarget == nil {
+				r.ackByTarget = make(map[history.ClusterShardID]int64)
+			}
+			for targetShardID, tasks := range tasksByTargetShard {
+				if _, ok := r.ackByTarget[targetShardID]; !ok {
+					r.ackByTarget[targetShardID] = tasks[0].SourceTaskId
+				}
+			}
 			r.ackMu.Unlock()
 
 			// update tracker for incoming messages
